@@ -27,6 +27,71 @@ theorem wrapTrack_range (t4 t8 : Rat) : 0 ≤ wrapTrack t4 t8 ∧ wrapTrack t4 t
   · constructor <;> norm_num
   · exact h
 
+/-- On exact numbers the corner arm of `wrapTrack` is never taken: the range does not rely on it. -/
+theorem wrapTrack_arm_dead (t4 t8 : Rat) :
+    wrapTrack t4 t8 =
+      remEuclid (t4 - (EXTRAP_MUL : Rat) * turningRate t4 t8 / (EXTRAP_DIV : Rat)) 360 := by
+  unfold wrapTrack
+  simp only [WRAP_FULL, WRAP_CORNER, WRAP_CORNER_VALUE, Nat.cast_ofNat, Nat.cast_zero]
+  have h := remEuclid_range (t4 - (EXTRAP_MUL : Rat) * turningRate t4 t8 / (EXTRAP_DIV : Rat)) 360 (by norm_num)
+  rw [if_neg (not_le.mpr h.2)]
+
+/-- the truncated remainder lies strictly between `-m` and `m` -/
+theorem fmodPos_range (x m : Rat) (hm : 0 < m) : -m < fmodPos x m ∧ fmodPos x m < m := by
+  unfold fmodPos
+  split
+  · have := remEuclid_range x m hm
+    constructor <;> linarith [this.1, this.2]
+  · have := remEuclid_range (-x) m hm
+    constructor <;> linarith [this.1, this.2]
+
+/-- a rounded `rem_euclid` lands in the CLOSED interval `[0, m]` for every monotone rounding that
+    fixes `0` and `m` -/
+theorem remEuclidR_range (rnd : Rat → Rat) (hmono : ∀ a b, a ≤ b → rnd a ≤ rnd b)
+    (x m : Rat) (hm : 0 < m) (h0 : rnd 0 = 0) (hmm : rnd m = m) :
+    0 ≤ remEuclidR rnd x m ∧ remEuclidR rnd x m ≤ m := by
+  unfold remEuclidR
+  have h := fmodPos_range x m hm
+  simp only
+  split
+  · rename_i hneg
+    constructor
+    · have := hmono 0 (fmodPos x m + m) (by linarith [h.1])
+      rw [h0] at this; exact this
+    · have := hmono (fmodPos x m + m) m (by linarith)
+      rw [hmm] at this; exact this
+  · rename_i hpos
+    exact ⟨not_lt.mp hpos, le_of_lt h.2⟩
+
+/-- with the corner arm the rounded wrap is in `[0, 360)` -/
+theorem wrapR_range (rnd : Rat → Rat) (hmono : ∀ a b, a ≤ b → rnd a ≤ rnd b)
+    (h0 : rnd 0 = 0) (h360 : rnd 360 = 360) (t : Rat) : 0 ≤ wrapR rnd t ∧ wrapR rnd t < 360 := by
+  unfold wrapR
+  simp only [WRAP_FULL, WRAP_CORNER, WRAP_CORNER_VALUE, Nat.cast_ofNat, Nat.cast_zero]
+  have h := remEuclidR_range rnd hmono t 360 (by norm_num) h0 h360
+  split
+  · constructor <;> norm_num
+  · rename_i hlt
+    exact ⟨h.1, not_le.mp hlt⟩
+
+/-- a monotone rounding fixing 0 and 360 (everything above 359 goes up to 360) -/
+def coarse (x : Rat) : Rat := if 359 < x then max x 360 else x
+
+theorem coarse_mono (a b : Rat) (h : a ≤ b) : coarse a ≤ coarse b := by
+  unfold coarse
+  split <;> split
+  · exact max_le_max h (le_refl _)
+  · rename_i h1 h2; exact absurd (lt_of_lt_of_le h1 h) h2
+  · rename_i h1 h2
+    exact le_trans h (le_max_left _ _)
+  · exact h
+
+/-- … under which the rounded `rem_euclid` of a tiny negative angle IS 360: without the arm the
+    range `[0, 360)` would be left. -/
+theorem remEuclidR_reaches_corner :
+    coarse 0 = 0 ∧ coarse 360 = 360 ∧ remEuclidR coarse (-1 / 2) 360 = 360 ∧ wrapR coarse (-1 / 2) = 0 := by
+  decide +kernel
+
 /-- the formula before the repair (`track4 − turning_rate`) does leave the range -/
 theorem unrepaired_track_leaves_range :
     (10 : Rat) - turningRate 10 100 < 0 ∧ (350 : Rat) - turningRate 350 260 ≥ 360 := by
